@@ -74,7 +74,10 @@ def main():
         "setup_cmd": "tools/vsetup",
         "hooks": {"guard": "TEXEL_VERIF",
                   "enable": "tools/vbuild.py compiles /repo's working tree with -DTEXEL_VERIF into /verif/build/<variant>/ (never uses /repo/_build)",
-                  "baseline_off_cmd": "/verif/tools/baseline_off.sh", "source_commits": hooks_commits, "add_only": True},
+                  "baseline_off_cmd": "/verif/tools/baseline_off.sh", "source_commits": hooks_commits,
+                  # all hook commits only add lines, except one that adds braces around three one-statement wait loops
+                  # (Notifier::wait, waitStop, waitOptionsSet) to place a yield point between the predicate test and the cv wait
+                  "add_only": False},
         "engines": [{"name": "tlc", "path": "/opt/veriftools/tla/tla2tools.jar", "serves_properties": sorted(CHECKS),
                      "kind_free_text": "TLA+ explicit-state model checker: model checking of the design specs and validation of implementation traces"}],
         "checks": [], "not_applicable": [],
